@@ -17,6 +17,31 @@ def jobs_api(rng, thorough):
     return [(gen.api_init_hostile(rng, T), rng.randrange(10 ** 9), rng.choice([0, 0, 3])) for _ in range(8000 if thorough else 250)]
 
 
+def jobs_api_ctor(rng, thorough):
+    """the receiver volunteers ordinary and hostile lines while another thread is anywhere inside a constructor of the library (subunit objects
+    are constructed on the live connection during initialize()): thread switches between any two bytecodes of every __init__, with the
+    preempted thread held back so that lines do arrive in between"""
+    T = core.tables()
+    out = []
+    for _ in range(8000 if thorough else 200):
+        spec = gen.api_init_hostile(rng, T)
+        # plain reports for the subunits that are being constructed, every 40 ms during the first seconds
+        present = spec.get("present") or []
+        t = 0.9
+        extra = []
+        for k in range(60):
+            su = rng.choice(["SYS", "MAIN"] + list(present))
+            extra.append([round(t, 3), f"@{su}:{rng.choice(['PWR=On', 'VOL=-30.0', 'MUTE=Off', 'INP=HDMI1', 'MODELNAME=X', 'AVAIL=Ready'])}"])
+            t += rng.choice([0.02, 0.04, 0.1])
+        spec["device"]["unsolicited"] = sorted(list(spec["device"].get("unsolicited", [])) + extra, key=lambda x: x[0])
+        spec["hot"] = "__init__"
+        spec["hot_budget"] = rng.choice([20, 60])
+        spec["stall"] = {"prob": 0.8, "us": [5000, 30000, 70000]}
+        out.append((spec, rng.randrange(10 ** 9), 0))
+    return out
+
+
 def run(ctx, T):
     b2check.run_b2(ctx, jobs_conn, ["C10", "C09"], label="hostile lines, connection level", accept=False)
     b2check.run_b2(ctx, jobs_api, ["C10"], label="hostile lines during YncaApi.initialize()", accept=False)
+    b2check.run_b2(ctx, jobs_api_ctor, ["C10"], label="lines arriving while another thread is inside a constructor of the library", accept=False)
